@@ -53,7 +53,9 @@ pub fn datum_vec_sel<T: serde::Serialize + ?Sized>(
 	if sel % 2 == 0 {
 		serde_avro_fast::to_datum_vec(v, config)
 	} else {
-		serde_avro_fast::to_datum(v, ShortSink { buf: vec![], max: 1 + (sel / 2) % 5 }, config).map(|s| s.buf)
+		// (one byte per call half of the time: every multi-byte `write` is then a short write)
+		let max = if (sel / 2) % 2 == 0 { 1 } else { 1 + (sel / 4) % 5 };
+		serde_avro_fast::to_datum(v, ShortSink { buf: vec![], max }, config).map(|s| s.buf)
 	}
 }
 
